@@ -524,4 +524,48 @@ def gMu (c : Cfg GShared GLocal) : Nat := (c.ths.map gWeight).sum
 def gFinal (v : StopVariant) (k n : Nat) (s : Schedule) : Cfg GShared GLocal :=
   run (gProg v) (s ++ rounds (n + 2) (3 * k + 3 + 2 * n)) (gInit k n)
 
+/-! ## Bridge.Close and connections attached late
+
+`SetTargetConnection` / `SetSourceConnection` (bridge_connection.go) put a new tunnel connection
+into the bridge under `tunnelConnMu`, also after an earlier `Close` (a handler that had looked the
+bridge up before it was closed).  Every `Close` call re-runs the connection teardown (close and
+nil under the locks); only the dispose latch is once-only — that is what lets
+`runBridgeLifecycle`'s deferred `Close` tear down a connection attached after an earlier `Close`.
+`guard = true` is the rejected variant "already closed → return" at the top of `Close`. -/
+
+structure AShared where
+  srcTC : Bool            -- sourceTunnelConn non-nil
+  tgtTC : Bool
+  satt : Nat              -- source / target connections ever attached
+  stc : Nat               -- Close calls on source / target tunnel connections
+  tatt : Nat
+  ttc : Nat
+  lostS : Nat             -- connections overwritten by a later attach while still attached
+  lostT : Nat
+  closed : Bool           -- dispose latch
+  deriving DecidableEq, Repr
+
+inductive APc | a1 | a2 | a3 | attS | attT | done
+  deriving DecidableEq, Repr
+
+def aStep (guard : Bool) (_tid : Nat) (sh : AShared) (l : APc) : AShared × APc :=
+  match l with
+  | .a1 => if guard && sh.closed then (sh, .done) else (sh, .a2)      -- sourceConnMu section (forwarder)
+  | .a2 => ({ sh with srcTC := false, tgtTC := false, stc := sh.stc + b2n sh.srcTC, ttc := sh.ttc + b2n sh.tgtTC }, .a3)
+  | .a3 => ({ sh with closed := true }, .done)
+  | .attS => ({ sh with srcTC := true, satt := sh.satt + 1, lostS := sh.lostS + b2n sh.srcTC }, .done)
+  | .attT => ({ sh with tgtTC := true, tatt := sh.tatt + 1, lostT := sh.lostT + b2n sh.tgtTC }, .done)
+  | .done => (sh, .done)
+
+def aProg (guard : Bool) : Prog AShared APc := ⟨aStep guard⟩
+
+/-- A bridge created with its source connection. -/
+def aInit (pcs : List APc) : Cfg AShared APc := ⟨⟨true, false, 1, 0, 0, 0, 0, 0, false⟩, pcs⟩
+
+/-- One uninterrupted `Close` call (the last one: `runBridgeLifecycle`'s deferred Close). -/
+def closeSeq (guard : Bool) (sh : AShared) : AShared :=
+  match (aStep guard 0 sh .a1).2 with
+  | .a2 => (aStep guard 0 (aStep guard 0 sh .a2).1 .a3).1
+  | _ => sh
+
 end Tunnox.C16
